@@ -52,6 +52,15 @@ func setCtx(yylex yyLexer, expr ast.Expr, ctx ast.ExprContext) {
 	// is a SyntaxError rather than a failed type assertion in SetCtx
 	switch x := expr.(type) {
 	case *ast.Tuple:
+		if len(x.Elts) == 0 {
+			// () is not a target (but [] is)
+			action := "assign to"
+			if ctx == ast.Del {
+				action = "delete"
+			}
+			yylex.(*yyLex).SyntaxErrorf("can't %s ()", action)
+			return
+		}
 		setCtxs(yylex, x.Elts, ctx)
 		x.Ctx = ctx
 		return
